@@ -353,6 +353,64 @@ def check_cli(acc, tmp, docs, src, tier):
     acc.sample({'cli': 'python -m kernpy --kern2ekern --input_path <dir> -r', 'layout': list(layout)}, cap=2)
 
 
+WIDTH_DOCS = {
+    1: ['**kern', '*clefG2', '=1', '4c', '8d', '=2', '2e', '==', '*-'],
+    2: ['**kern\t**text\t**kern', '*clefF4\t*\t*clefG2', '=1\t=1\t=1', '4C\tla\t4cc', '4D\tlu\t4dd#L', '==\t==\t==', '*-\t*-\t*-'],
+    3: ['**kern\t**kern\t**dynam\t**kern', '*clefF4\t*clefC3\t*\t*clefG2', '=1\t=1\t=1\t=1', '4C\t4e\tf\t4cc', '4D\t4f#\tp\t4dd', '==\t==\t==\t==', '*-\t*-\t*-\t*-'],
+    4: ['**kern\t**kern\t**kern\t**kern', '*clefF4\t*clefC3\t*clefG2\t*clefG2', '=1\t=1\t=1\t=1', '4C\t4e\t4g\t4cc', '==\t==\t==\t==', '*-\t*-\t*-\t*-'],
+}
+
+
+def check_converter_sequences(acc, tmp, src):
+    """history: the converters applied to files with 1, 2, 3, 4 kern spines one after the other - in ONE process through the API functions the CLI calls
+    (both orders), and through the CLI's directory mode with the files named in both orders - must each write what the API produces for that file alone"""
+    texts = {w: '\n'.join(l) + '\n' for w, l in WIDTH_DOCS.items()}
+    for order in ([1, 2, 3, 4, 1], [4, 3, 2, 1, 4], [2, 4, 1, 3, 2]):
+        root = os.path.join(tmp, 'seq' + ''.join(map(str, order)))
+        os.makedirs(root)
+        for i, w in enumerate(order):
+            ip, op, bp = os.path.join(root, f'f{i}.krn'), os.path.join(root, f'f{i}.ekrn'), os.path.join(root, f'g{i}.krn')
+            open(ip, 'wb').write(texts[w].encode('utf-8'))
+            case = {'doc': f'{w} kern spines', 'text': texts[w], 'converter_sequence': order[:i + 1], 'flavour': 'ascii'}
+            acc.count('evaluations')
+            acc.count('transitions', 2)
+            acc.nontriv(('convseq', tuple(order), i))
+            try:
+                kp.kern_to_ekern(ip, op)
+                got = open(op, 'rb').read().decode('utf-8', 'replace')
+                kp.ekern_to_krn(op, bp)
+                back = open(bp, 'rb').read().decode('utf-8', 'replace')
+            except Exception as e:  # noqa
+                acc.violation(Viol('converter-sequence-in-one-process', 'raises', case, None, f'{type(e).__name__}: {str(e)[:80]}'))
+                continue
+            acc.count('traces')
+            exp = expected_ekern(texts[w])
+            if got != exp:
+                acc.violation(Viol('converter-sequence-in-one-process', 'output-differs-from-the-api', case, exp[:300], got[:300]))
+            elif back != kp.get_kern_from_ekern(got):
+                acc.violation(Viol('converter-sequence-in-one-process', 'ekern2kern-output-differs-from-the-api', case, kp.get_kern_from_ekern(got)[:300], back[:300]))
+    for naming in ('ascending', 'descending'):
+        root = os.path.join(tmp, 'dirw_' + naming)
+        os.makedirs(root)
+        layout = {}
+        for k, w in enumerate([1, 2, 3, 4] if naming == 'ascending' else [4, 3, 2, 1]):
+            for rep in range(2):
+                layout[f'{"abcd"[k]}{rep}.krn'] = w
+        for rel, w in layout.items():
+            open(os.path.join(root, rel), 'wb').write(texts[w].encode('utf-8'))
+        r = cli(root, ['--kern2ekern', '--input_path', root], src)
+        acc.count('transitions')
+        acc.count('evaluations')
+        acc.count('cli_invocations')
+        after = snapshot_tree(root)
+        case = {'mode': 'directory-of-different-widths', 'naming': naming, 'layout': layout, 'direction': 'kern2ekern'}
+        for rel, w in layout.items():
+            got = after.get(rel[:-4] + '.ekrn', b'').decode('utf-8', 'replace')
+            if got != expected_ekern(texts[w]):
+                acc.violation(Viol('cli-directory', 'output-differs-from-the-api', dict(case, file=rel), expected_ekern(texts[w])[:300], got[:300]))
+                break
+
+
 def run(ctx):
     docs = doc_texts(ctx.tier, ctx.seed)
     src = os.path.abspath(os.environ.get('KERNPY_SRC', '/repo'))
@@ -373,6 +431,7 @@ def run(ctx):
         check_path_reuse(ctx, tmp, docs)
         ctx.sample({'doc': docs[1][0], 'text': '\r\n'.join(docs[1][1]), 'variant': 'CRLF, no final newline'})
         check_cli(ctx, tmp, docs, src, ctx.tier)
+        check_converter_sequences(ctx, tmp, src)
     finally:
         shutil.rmtree(tmp, ignore_errors=True)
 
@@ -382,6 +441,9 @@ def replay(case):
     tmp = tempfile.mkdtemp(prefix='kv20_')
     src = os.path.abspath(os.environ.get('KERNPY_SRC', '/repo'))
     try:
+        if 'converter_sequence' in case or case.get('mode') == 'directory-of-different-widths':
+            check_converter_sequences(acc, tmp, src)
+            return acc.viol
         if case.get('mode') in ('single-file', 'directory'):
             check_cli(acc, tmp, doc_texts('quick', 0), src, 'quick')
             vs = [v for v in acc.viol if v['case'].get('mode') == case['mode']]
